@@ -17,6 +17,8 @@ def rawOK : Rw → Bool
   | .multi rs => rawOKList rs
   | .message _ _ => false
   | .embedded _ _ _ => false
+  | .embeddedMerge _ _ _ => false
+  | .replacement _ => false
 def rawOKList : List Rw → Bool
   | [] => true
   | r :: rs => rawOK r && rawOKList rs
@@ -45,6 +47,8 @@ theorem rawOK_facts (n : Nat) :
         simpa [rwOK, hasEmb] using ih.2 rs (by omega) hr
       | message len rs => simp [rawOK] at hr
       | embedded number len rs => simp [rawOK] at hr
+      | embeddedMerge number len rs => simp [rawOK] at hr
+      | replacement r => simp [rawOK] at hr
     · intro rs h hr
       cases rs with
       | nil => simp [listOK, hasEmbList]
@@ -111,6 +115,8 @@ theorem spec_raw_defined (sf : Nat) :
         exact ih.2 rs p hr (by omega)
       | message len rs => simp [rawOK] at hr
       | embedded number len rs => simp [rawOK] at hr
+      | embeddedMerge number len rs => simp [rawOK] at hr
+      | replacement r => simp [rawOK] at hr
     · intro rs p hr hf
       cases rs with
       | nil => exact ⟨[], by simp [toSpecList, specMulti_nil]⟩
@@ -181,7 +187,7 @@ theorem specMsg_flat_defined (rs : List (Nat × Rw)) (h : rawOKEnts rs = true) :
           exact ih seen f (by omega)
         · simp only [hc, Bool.false_eq_true, if_false]
           have hD := (getRw_facts 0 rs n r hg).2.1
-          obtain ⟨a, ha⟩ := (spec_raw_defined f).1 r (specPayload w) (getRw_rawOK rs n r h hg) (by omega)
+          obtain ⟨a, ha⟩ := (spec_raw_defined f).1 r (specPayloadM (toSpec r) n w rest) (getRw_rawOK rs n r h hg) (by omega)
           obtain ⟨b, hb⟩ := ih (n :: seen) f (by omega)
           exact ⟨a ++ b, by rw [ha, hb]; rfl⟩
 
